@@ -65,12 +65,20 @@ type PFCPConn struct {
 
 	hbReset     chan struct{}
 	hbCtxCancel context.CancelFunc
+	// hbMu guards hbCtxCancel, which the heartbeat monitor, a repeated association
+	// setup and Shutdown touch from different goroutines.
+	hbMu sync.Mutex
+
+	// shutdownOnce makes Shutdown idempotent: release, read timeout, heartbeat
+	// failure and node stop may all ask for it.
+	shutdownOnce sync.Once
 
 	pendingReqs sync.Map
 }
 
 func (pConn *PFCPConn) startHeartBeatMonitor() {
 	// Stop HeartBeat routine if already running
+	pConn.hbMu.Lock()
 	if pConn.hbCtxCancel != nil {
 		pConn.hbCtxCancel()
 		pConn.hbCtxCancel = nil
@@ -78,6 +86,7 @@ func (pConn *PFCPConn) startHeartBeatMonitor() {
 
 	hbCtx, hbCancel := context.WithCancel(pConn.ctx)
 	pConn.hbCtxCancel = hbCancel
+	pConn.hbMu.Unlock()
 
 	logger.PfcpLog.With("interval", pConn.upf.hbInterval).Infoln("starting Heartbeat timer")
 
@@ -229,14 +238,21 @@ func (pConn *PFCPConn) Serve() {
 	}
 }
 
-// Shutdown stops connection backing PFCPConn.
+// Shutdown stops connection backing PFCPConn. It may be called more than once and from
+// several goroutines; only the first call does the work.
 func (pConn *PFCPConn) Shutdown() {
+	pConn.shutdownOnce.Do(pConn.shutdownNow)
+}
+
+func (pConn *PFCPConn) shutdownNow() {
 	close(pConn.shutdown)
 
+	pConn.hbMu.Lock()
 	if pConn.hbCtxCancel != nil {
 		pConn.hbCtxCancel()
 		pConn.hbCtxCancel = nil
 	}
+	pConn.hbMu.Unlock()
 
 	// Cleanup all sessions in this conn
 	for _, sess := range pConn.store.GetAllSessions() {
